@@ -97,6 +97,15 @@ def compat(R):
              ("array-rank", i3, i23, False), ("array-scalar", i3, ty.Integer(), False), ("scalar-array", ty.Float(), i3, False),
              ("struct-same", s1, s1, True), ("struct-other", s1, s2, False), ("struct-scalar", s1, ty.Integer(), False),
              ("vector-struct", ty.VectorType(ty.Float(), 2), s1, False)]
+    # void converts to nothing and nothing converts to void (the result of a void call is not an argument)
+    void = ty.Void()
+    for nm, t in (("int", ty.Integer()), ("float", ty.Float()), ("uint", ty.UnsignedInteger()), ("float3", ty.VectorType(ty.Float(), 3)), ("float3x3", ty.MatrixType(ty.Float(), 3, 3))):
+        for a, p, lab in ((void, t, f"void,{nm}"), (t, void, f"{nm},void")):
+            try:
+                got = (bool(ic(a, p)), mt(a, p))
+            except Exception as e:
+                got = f"raised {type(e).__name__}: {e}"
+            R.check(f"C10.compat[{lab}]", T + "::IsCompatible", got == (False, -1), detail=f"IsCompatible / Match({a!r}, {p!r}) = {got}, expected (False, -1)")
     for name, a, p, want in cases:
         try:
             got = bool(ic(a, p))
